@@ -616,13 +616,15 @@ impl Process for JsonProcess {
     closed spec fn fut(&self, rows: Seq<Context>) -> Seq<char> { json_rows(self.printer, self.line_seperator@, rows) }
     closed spec fn must_break(&self) -> bool { false }
     closed spec fn eager(&self) -> bool { true }
+    closed spec fn rejects(&self, titles: Seq<String>) -> bool { false }
+    closed spec fn header(&self, titles: Seq<String>) -> Seq<char> { Seq::empty() }
 
 //@@ fn jsonprocess.start = src/output_style.rs :: impl Process for JsonProcess :: fn start
-//@@ safety C02 C03
+//@@ safety C02 C03 C16 C18
 //@@ rewrite underscore_param
 //@@ endfn
 //@@ fn jsonprocess.complete = src/output_style.rs :: impl Process for JsonProcess :: fn complete
-//@@ safety C02 C03
+//@@ safety C02 C03 C16
 //@@ endfn
 //@@ fn jsonprocess.process = src/output_style.rs :: impl Process for JsonProcess :: fn process
 //@@ safety C02 C03 C16
@@ -811,12 +813,17 @@ impl Process for TextProcess {
     closed spec fn fut(&self, rows: Seq<Context>) -> Seq<char> { text_rows(self.printer, self.length as int, self.line_seperator@, rows) }
     closed spec fn must_break(&self) -> bool { false }
     closed spec fn eager(&self) -> bool { true }
+    // csv (and text --headers) needs at least one selection name
+    closed spec fn rejects(&self, titles: Seq<String>) -> bool { self.printer.opts().headers && titles.len() == 0 }
+    closed spec fn header(&self, titles: Seq<String>) -> Seq<char> {
+        if self.printer.opts().headers { list_row(self.printer, titles.len() as int, self.line_seperator@, title_values(titles)) } else { Seq::empty() }
+    }
 
 //@@ fn textprocess.complete = src/output_style.rs :: impl Process for TextProcess :: fn complete
-//@@ safety C15 C03
+//@@ safety C15 C03 C16
 //@@ endfn
 //@@ fn textprocess.start = src/output_style.rs :: impl Process for TextProcess :: fn start
-//@@ safety C15 C18 C03
+//@@ safety C15 C18 C03 C16
 //@@ ret r
 //@@ header
         ensures
